@@ -658,6 +658,8 @@ def _variants():
         V("store-str-not-repr", replace_expr(PW, "PinWords.store_dfa_for_perm", "repr(in_dfa)", "str(in_dfa.states)"), "fire", "C20-D1"),
         V("store-default-other-perm", replace_expr(PW, "PinWords.store_dfa_for_perm", "cls.make_dfa_for_perm(perm)", "cls.make_dfa_for_perm(perm.reverse())"), "fire", "C20-D1"),
         V("store-computes-after-open", replace_expr(PW, "PinWords.store_dfa_for_perm", "repr(in_dfa)", "repr(in_dfa if in_dfa is not None else cls.make_dfa_for_perm(perm))"), "fire-or-undecided", "C20-D1"),
+        V("shipped-property-pattern-changed", replace_expr("permuta/bisc/perm_properties.py", None, "[(1, 6), (4, 5), (4, 6)]", "[(0, 6), (4, 5), (4, 6)]"), "fire", "C20-P1"),
+        V("shipped-property-cells-reordered", replace_expr("permuta/bisc/perm_properties.py", None, "[(1, 6), (4, 5), (4, 6)]", "[(4, 6), (1, 6), (4, 5)]"), "silent"),
         V("load-stores-other", replace_expr(PW, "PinWords.load_dfa_for_perm", "cls.store_dfa_for_perm(perm)", "cls.store_dfa_for_perm(perm.inverse())"), "fire", "C20-D1"),
         V("db-builder-unsorted", replace_expr(PW, "PinWords.make_dfa_for_basis_from_db", "sorted(basis)", "basis"), "fire", "C20-D1"),
         V("db-builder-intersection", replace_expr(PW, "PinWords.make_dfa_for_basis_from_db", "out_dfa.union(out_dfa2)", "out_dfa.intersection(out_dfa2)"), "fire", "C20-D1"),
@@ -735,3 +737,88 @@ def run(ctx: Ctx) -> None:  # noqa: F811
 
 FLOORS["C20-M1"] = 2
 FLOORS["C20-W5"] = 1
+
+
+# ------------------------------------------------------------------------------ P1: the shipped data sets are filed under the documented property
+#
+# The files under resources/bisc are named after functions of bisc/perm_properties.py and hold the partition of all
+# permutations of one length by that function.  For the two properties defined by pattern avoidance the function's docstring
+# states the patterns; the patterns the function really tests must be those (stated belief vs. use): if they differ, either the
+# documentation or the partition shipped under that name is wrong.  Values are compared (permutation, set of shaded cells), not
+# text.
+
+
+def _literal(node: ast.AST):
+    return ast.literal_eval(ast.fix_missing_locations(ast.Expression(body=node)))
+
+
+def _pattern_value(node: ast.AST):
+    """('perm', entries) / ('mesh', entries, frozenset(cells)) of a literal Perm((..)) / MeshPatt(Perm((..)), [cells]); None otherwise"""
+    if isinstance(node, ast.Call) and call_name(node) == ("Perm",) and len(node.args) == 1:
+        try:
+            return ("perm", tuple(_literal(node.args[0])))
+        except (ValueError, TypeError, SyntaxError):
+            return None
+    if isinstance(node, ast.Call) and call_name(node) == ("MeshPatt",) and len(node.args) == 2:
+        inner = _pattern_value(node.args[0])
+        try:
+            cells = frozenset(tuple(c) for c in _literal(node.args[1]))
+        except (ValueError, TypeError, SyntaxError):
+            return None
+        return ("mesh", inner[1], cells) if inner else None
+    return None
+
+
+def rule_p1(ctx: Ctx) -> None:
+    import re
+
+    mod = ctx.repo.module("permuta.bisc.perm_properties")
+    n = 0
+    for name, fi in sorted(mod.functions.items()):
+        doc = ast.get_docstring(fi.node) or ""
+        stated = []
+        for m in re.finditer(r"MeshPatt\(Perm\(\([0-9, ]*\)\), \[[0-9(), ]*\]\)", doc):
+            try:
+                v = _pattern_value(ast.parse(m.group(0), mode="eval").body)
+            except SyntaxError:
+                v = None
+            if v:
+                stated.append(v)
+        if not stated:
+            continue
+        rets = [st for st in fi.body if isinstance(st, ast.Return)]
+        if len(rets) != 1 or not (isinstance(rets[0].value, ast.Call) and call_name(rets[0].value) and call_name(rets[0].value)[-1] == "avoids"):
+            raise AnalysisError(f"{fi.where}: documented as a pattern-avoidance property but not of the form `return perm.avoids(..)`")
+        used = []
+        for a in rets[0].value.args:
+            a = a.value if isinstance(a, ast.Starred) else a
+            if isinstance(a, ast.Name) and a.id in mod.assigns:
+                a = mod.assigns[a.id]
+            for e in (a.elts if isinstance(a, (ast.Tuple, ast.List)) else [a]):
+                v = _pattern_value(e)
+                if v is None:
+                    raise AnalysisError(f"{fi.where}: tested pattern `{unparse(e)[:60]}` is not a literal")
+                used.append(v)
+        n += 1
+        used_mesh = {v for v in used if v[0] == "mesh"}
+        missing = [v for v in stated if v not in used_mesh]
+        extra = [v for v in used_mesh if v not in stated]
+        if missing or extra:
+            show = lambda v: f"MeshPatt(Perm({v[1]}), {sorted(v[2])})"  # noqa: E731
+            ctx.violation("C20-P1", fi, rets[0], f"{name} is documented (and its shipped data set was filed) as avoiding {', '.join(show(v) for v in stated)}, but it tests "
+                          f"{', '.join(show(v) for v in sorted(used_mesh, key=str))}: the data files shipped under this name are no longer the partition by this function", robust=True)
+        else:
+            ctx.ok("C20-P1", fi.where, f"{name}: the mesh patterns tested are the documented ones ({len(stated)})", rets[0], fi)
+    if n == 0:
+        raise AnalysisError("C20-P1: no documented pattern-avoidance property found in bisc/perm_properties.py")
+
+
+_RUN_BEFORE_P1 = run
+
+
+def run(ctx: Ctx) -> None:  # noqa: F811
+    _RUN_BEFORE_P1(ctx)
+    ctx.run(rule_p1, ctx)
+
+
+FLOORS["C20-P1"] = 2
